@@ -74,6 +74,30 @@ def handle : Handler := fun j => do
       ("margin", match margin with | none => Json.null | some q => jRat q),
       ("best", jOptNat bestI),
       ("posteriors", jList jRat post)])
+  | "trace" =>
+    -- the beam after every frame (prefix, Pb, Pnb, Plm, LM state) and the cut margin of that frame
+    let M ← getRatMat j "M"
+    let k ← getNat j "k"
+    let thr ← getRat j "thr"
+    let lmj ← j.getObjVal? "lm"
+    let sel : Rat → Bool := fun p => decide (p > thr)
+    let (lm, h0, num, den) ←
+      if lmj.isNull then pure (unitLM, 0, 0, 1)
+      else do
+        let t : Toy := { m := ← getNat lmj "m", table := ← getRatList lmj "table", eos := ← getRatList lmj "eos",
+                         bonus := ← getRat lmj "bonus" }
+        pure (toyLM t, ← getNat lmj "h0", ← getNat lmj "num", ← getNat lmj "den")
+    let key := fusedKey ratOps num den (H := Nat)
+    let choose := fun k l => topK ratOps key k l
+    let (_, frames) := M.foldl
+      (fun (st : List (Entry Nat Rat) × List Json) row =>
+        let b := step ratOps lm sel k choose st.1 row
+        let mg := cutMargin lm sel k key st.1 row
+        (b, st.2 ++ [Json.mkObj [
+          ("beam", jList (fun (e : Entry Nat Rat) => Json.arr #[jNats e.pre, jRat e.pb, jRat e.pnb, jRat e.plm, jNat e.h]) b),
+          ("margin", match mg with | none => Json.null | some q => jRat q)]]))
+      (init ratOps h0, [])
+    return ok (Json.arr frames.toArray)
   | _ => throw s!"C02: unknown op {op}"
 
 end Drv.C02
